@@ -93,6 +93,7 @@ class StrPatchwork(object):
         tmp = array("B")
         array_frombytes(tmp, bytes(other))
         self.s.extend(tmp)
+        self.s_cache = None
         return self
 
     def find(self, pattern, start=0, end=None):
